@@ -27,6 +27,7 @@ CONSTANTS RtmpPubs, RtspPubs, CustPubs, PsPubs,     \* input sessions (ids)
           ProbeMsgs,                                \* messages per Probe (2 when an AAC sequence header precedes the frame)
           MaxTick, MaxAttempts,
           WirePubs,                                 \* RTMP publishers on a real connection served by the server's own routine
+          DescribeOn,                               \* RTSP players asking for the description are part of the model
           MaxSweep                                  \* idle sweeps (ticks whose count is a multiple of 120); 0 = not modelled
 
 NetPubs == RtmpPubs \cup RtspPubs \cup WirePubs
@@ -342,12 +343,31 @@ Shutdown ==
   /\ push' = StopPush(push) /\ patt' = patt
   /\ UNCHANGED <<grp, ss, nh, clock, nticks>>
 
+\* an RTSP publisher's keep-alive (OPTIONS on the command connection): answered, and nothing else
+KeepAlive(x) ==
+  /\ MaxSweep > 0 /\ x \in RtspPubs /\ ss[x] = "in"
+  /\ act' = [name |-> "KeepAlive", x |-> x, obs |-> Obs("ok", <<>>, <<>>)]
+  /\ UNCHANGED <<grp, inp, owner, ss, closed, nh, pull, clock, nticks>>
+
+\* an RTSP player asks for the description of the stream (and hangs up again): it is answered at once iff an input
+\* that has been described is attached - here: an RTSP publisher (its ANNOUNCE carried the description); for the other
+\* inputs of this model no description exists (the remuxer's analysis has not seen 16 messages), and the description
+\* of an input that is gone must not be handed out
+Describe ==
+  /\ DescribeOn /\ ~PullEnabled
+  /\ act' = [name |-> "Describe", obs |-> Obs(IF inp \in RtspPubs THEN "sdp" ELSE "wait",
+                                              <<N("sub_start", "player"), N("sub_stop", "player")>>, <<>>)]   \* (lal counts it as a subscriber from DESCRIBE on)
+  /\ grp' = TRUE     \* (the group is created for the asking session)
+  /\ UNCHANGED <<inp, owner, ss, closed, nh, pull, clock, nticks>>
+
 Step == \/ \E x \in NetPubs : NewPub(x) \/ DelPub(x)
         \/ \E x \in CustPubs : AddCust(x) \/ DelCust(x)
         \/ \E x \in PsPubs : StartPs(x)
         \/ \E x \in Subs : NewSub(x) \/ DelSub(x)
         \/ \E x \in Sessions : Kick(x)
         \/ \E x \in Pubs : Probe(x)
+        \/ \E x \in RtspPubs : KeepAlive(x)
+        \/ Describe
         \/ Tick \/ StartPull \/ StopPull \/ KickPull \/ PullOk \/ PullFail \/ PullEnd \/ Advance
 \* (one conjunction, so that TLC's simulator chooses uniformly among successor states instead of
 \*  picking the Shutdown disjunct half of the time)
@@ -389,7 +409,11 @@ PushStep == /\ \E t \in PushTargets : PushOk(t) \/ PushFail(t) \/ PushEnd(t)
 \* Bytes move when a Probe travels through the session's connection: a wire publisher that sends it, a
 \* subscriber it is forwarded to (the RtmpPubs / RtspPubs of the driver hand their media to the group
 \* directly, so their connections never carry a byte).
+\* In the configurations with idle sweeps the RTSP publishers of the driver are set up completely (SETUP interleaved,
+\* RECORD) and a probe is accompanied by an RTCP sender report on the connection - media-side bytes.  Requests on the
+\* command connection (KeepAlive) are not media: a publisher that only sends those has stopped sending.
 Touched(x, p) == \/ (x = p /\ p \in WirePubs /\ ss[p] = "in")
+                 \/ (x = p /\ p \in RtspPubs /\ ss[p] = "in" /\ MaxSweep > 0)
                  \/ (x \in FwdSubs /\ ss[x] = "in" /\ ~closed[x] /\ inp = p)
 IdlFx == idl' = IF act'.name = "Probe"
                   THEN [x \in Sessions |-> IF idl[x] = "still" /\ Touched(x, act'.x) THEN "moved" ELSE idl[x]]
